@@ -135,7 +135,7 @@ def run_case(case):
     P0 = None
     if case["init"] != "default":
         P0 = _neighbour_density(case)
-    t0 = time.time()
+    t0 = time.process_time()
     molecule, es = sp.build(_geom(names, case["seed"]), params)
     molecule.verbose = False
     if case["init"] == "perturbed":
@@ -161,7 +161,7 @@ def run_case(case):
             }  # fmt: skip
     finally:
         SL.MAX_ITER = old_cap
-    out["t"] = time.time() - t0
+    out["t"] = time.process_time() - t0
     loops = {}
     for (f, fn, ln), n in h.counts.items():
         if fn.startswith("scf_forward"):
@@ -180,12 +180,16 @@ def run_case(case):
 # ------------------------------------------------------------------ oracle
 
 
-def tolerances(case, uhf):
+def tolerances(case, uhf, norb):
     eps = case["eps"]
     s2 = case["sp2"] or 0.0
     a = MIX.get(case["solver"], 0.0)
     t = max(eps, s2)
-    tr = max(1e-9, 10.0 * s2, eps)
+    # trace: linear mixing P <- a P + (1-a) D carries the trace error of the start density (ionic charge in the
+    # default guess, a traceful perturbation) as a^k; the element test |dP|_max <= 15 eps of the stopping rule bounds
+    # what is left at the stop by 15 * norb * eps * a / (1 - a).  Without mixing the trace is that of D (exact, or the
+    # SP2 tolerance).  Measured: <= 2.5 eps (a = 0.7, perturbed start), <= 0.2 of the bound used.
+    tr = max(1e-9, 10.0 * s2, eps * max(1.0, 15.0 * norb * a / (1 - a)))
     return {
         "sym": TOL_SYM,
         "leak": TOL_SYM,
@@ -203,10 +207,10 @@ def judge(case, out):
     """-> list of (mol index, residual name, value, tolerance) for molecules reported converged"""
     bad = []
     uhf = _uhf(case["batch"])
-    tol = tolerances(case, uhf)
     for i, (nc, r) in enumerate(zip(out["nc"], out["res"])):
         if nc:
             continue
+        tol = tolerances(case, uhf, r["norb"])
         if not r["finite"]:
             bad.append((i, "finite", float("nan"), 0.0))
             continue
@@ -374,7 +378,7 @@ def _evaluate(chk, case, out, stats):
             u = "uhf" if _uhf(case["batch"]) else "rhf"
             stats[f"max_pd_ratio_{u}"] = max(stats[f"max_pd_ratio_{u}"], r["pd"] * (1 - a) / t)
             stats[f"max_comm_ratio_{u}"] = max(stats[f"max_comm_ratio_{u}"], r["comm"] * (1 - a) / case["eps"])
-            stats["max_trace_ratio"] = max(stats["max_trace_ratio"], r["trace"] / max(1e-9, 10 * (case["sp2"] or 0), case["eps"]))
+            stats["max_trace_ratio"] = max(stats["max_trace_ratio"], r["trace"] / tolerances(case, False, r["norb"])["trace"])
             stats["max_idem_ratio"] = max(stats["max_idem_ratio"], r["idem"] * (1 - a) / t)
         stats["max_eelec"] = max(stats["max_eelec"], r["eelec"])
     if cap_bad:
